@@ -256,31 +256,38 @@ class Orchestrator:
         except Exception as e:
             res['errors'].append('[GEN] threshold scan failed: %s' % e)
         if thresholds:
-            name = 'corpus_adaptive'
-            env = dict(base_env, CORPUS_SHARD='0/1', CORPUS_INDEX_DIR=idx_dir, MIRDUMP_CRATES='corpus', CORPUS_KIND='adaptive',
-                       CORPUS_THRESHOLDS=','.join(str(x) for x in thresholds))
-            job = (name, [run, os.path.join(self.here, 'corpus'), os.path.join(fdir, 'facts_corpus_adaptive'), os.path.join(self.work, 'target-corpus-0')], env)
-            rc.update(self.run_jobs([job], logdir))
-            excluded = []
-            tries = 0
-            while rc[name] != 0 and tries < 3:
-                tries += 1
-                log = open(os.path.join(logdir, name + '.log')).read()
-                bad = sorted(set(re.findall(r'/out/(m\d{4})\.rs', log)) - set(excluded))
-                if not bad:
-                    res['errors'].append('[GEN] adaptive corpus failed to build; see %s' % os.path.join(logdir, name + '.log'))
-                    break
-                errs = defaultdict(list)
-                for m in re.finditer(r'(error(?:\[E\d+\])?: [^\n]*)\n\s*--> [^\n]*/out/(m\d{4})\.rs:(\d+)', log):
-                    errs[m.group(2)].append(m.group(1))
-                for b in bad:
-                    compile_findings.append(('adaptive', b, errs.get(b, ['(see log)'])[:3]))
-                excluded += bad
-                env2 = dict(env, CORPUS_EXCLUDE=','.join(excluded))
-                rc.update(self.run_jobs([(name, job[1], env2)], logdir))
-            idxf = os.path.join(idx_dir, 'index-adaptive-0.json')
-            if os.path.exists(idxf):
-                index['adaptive'] = json.load(open(idxf))
+            NA = 8
+            ajobs = {}
+            for ai in range(NA):
+                name = 'corpus_adaptive_%d' % ai
+                env = dict(base_env, CORPUS_SHARD='%d/%d' % (ai, NA), CORPUS_INDEX_DIR=idx_dir, MIRDUMP_CRATES='corpus', CORPUS_KIND='adaptive',
+                           CORPUS_THRESHOLDS=','.join(str(x) for x in thresholds))
+                ajobs[name] = (name, [run, os.path.join(self.here, 'corpus'), os.path.join(fdir, 'facts_corpus_adaptive-%d' % ai),
+                                      os.path.join(self.work, 'target-corpus-%d' % ai)], env)
+            rc.update(self.run_jobs(list(ajobs.values()), logdir))
+            for ai in range(NA):
+                name = 'corpus_adaptive_%d' % ai
+                job = ajobs[name]
+                excluded = []
+                tries = 0
+                while rc[name] != 0 and tries < 3:
+                    tries += 1
+                    log = open(os.path.join(logdir, name + '.log')).read()
+                    bad = sorted(set(re.findall(r'/out/(m\d{4})\.rs', log)) - set(excluded))
+                    if not bad:
+                        res['errors'].append('[GEN] adaptive corpus failed to build; see %s' % os.path.join(logdir, name + '.log'))
+                        break
+                    errs = defaultdict(list)
+                    for m in re.finditer(r'(error(?:\[E\d+\])?: [^\n]*)\n\s*--> [^\n]*/out/(m\d{4})\.rs:(\d+)', log):
+                        errs[m.group(2)].append(m.group(1))
+                    for bm in bad:
+                        compile_findings.append(('adaptive-%d' % ai, bm, errs.get(bm, ['(see log)'])[:3]))
+                    excluded += bad
+                    env2 = dict(job[2], CORPUS_EXCLUDE=','.join(excluded))
+                    rc.update(self.run_jobs([(name, job[1], env2)], logdir))
+                idxf = os.path.join(idx_dir, 'index-adaptive-%d.json' % ai)
+                if os.path.exists(idxf):
+                    index['adaptive-%d' % ai] = json.load(open(idxf))
         res['thresholds'] = thresholds
         # ---- builder / generator panics and compile failures (C13 observations)
         n_mod = 0
